@@ -510,7 +510,7 @@ func Build(p Prog, seed int64, failSlot int, failWhen string, tmpdir string) (*B
 		names["Subject"] = true
 	}
 	slot := 0
-	msgCte := map[string]string{"qp": "quoted-printable", "b64": "base64", "8bit": "8bit", "": "quoted-printable"}[p.Enc]
+	msgCte := map[string]string{"qp": "quoted-printable", "b64": "base64", "8bit": "8bit", "7bit": "7bit", "": "quoted-printable"}[p.Enc]
 	cteName := map[string]string{"qp": "quoted-printable", "b64": "base64", "8bit": "8bit", "7bit": "7bit"}
 	for i, ps := range p.Parts {
 		slot++
